@@ -89,7 +89,7 @@ def classify(msg):
 DEFAULT_RLIMIT = 30   # 3x Verus' default budget: a proof that drifts near the default limit must not turn into 'undecided' on the unchanged tree
 
 
-def run_unit(unit_name, rlimit=None, extra_args=()):
+def run_unit(unit_name, rlimit=None, extra_args=(), auto_bits=()):
     """Generate build/<unit>.rs from specs/<unit>.vspec and /repo, run Verus, return a result dict."""
     os.makedirs(BUILD, exist_ok=True)
     spec_path = os.path.join(ROOT, 'specs', unit_name + '.vspec')
@@ -98,13 +98,13 @@ def run_unit(unit_name, rlimit=None, extra_args=()):
            'cmd': '', 'wall_s': 0.0, 'smt_s': 0.0, 'verified': 0, 'errors': 0, 'stderr_tail': ''}
     try:
         vx._SRC_CACHE.clear()
-        unit = vx.process_template(spec_path, unit_name)
+        unit = vx.process_template(spec_path, unit_name, auto_bits=tuple(auto_bits))
     except vx.ExtractError as e:
         res['status'] = 'extract-error'
         res['notes'].append(str(e))
         res['wall_s'] = time.time() - t0
         return res, None
-    gen = os.path.join(BUILD, unit_name + '.rs')
+    gen = os.path.join(BUILD, unit_name + ('_retry' if auto_bits else '') + '.rs')
     open(gen, 'w').write(unit.text)
     res['notes'] = list(unit.notes)
     res['assumed'] = list(unit.assumed)
